@@ -39,13 +39,14 @@ type TcAbs struct {
 	CompQ   bool     `json:"compQ"`
 	CompB   bool     `json:"compB"`
 	// concretisation choices made by the check (seeded)
-	ID      int    `json:"id"`
-	Codec   string `json:"codec"`
-	Gzip    bool   `json:"gzip"`
-	Spell   string `json:"spell"`   // json | proto key spelling in the query
-	Invalid string `json:"invalid"` // role whose text is replaced by an invalid one ("" = none)
-	Table   bool   `json:"table"`   // draw values from the boundary tables
-	Stream  bool   `json:"stream"`  // first message of a client stream instead of a unary call
+	ID       int    `json:"id"`
+	Codec    string `json:"codec"`
+	Gzip     bool   `json:"gzip"`
+	Spell    string `json:"spell"`    // json | proto key spelling in the query
+	Invalid  string `json:"invalid"`  // role whose text is replaced by an invalid one ("" = none)
+	Table    bool   `json:"table"`    // draw values from the boundary tables
+	Stream   bool   `json:"stream"`   // first message of a client stream instead of a unary call
+	ZeroPath bool   `json:"zeropath"` // p1 carries the zero value of its kind (0, false, enum 0)
 }
 
 type TcEv struct {
@@ -98,6 +99,7 @@ func pathSafe(k string) bool {
 }
 
 type val struct {
+	zero  bool     // the proto3 zero value of the kind (indistinguishable from absent)
 	text  string   // URL text
 	alt   []string // other accepted spellings
 	set   func(m protoreflect.Message, fd protoreflect.FieldDescriptor)
@@ -258,6 +260,29 @@ func genVal(k string, r *rng, table bool, forPath bool) val {
 	panic("kind " + k)
 }
 
+// zeroVal gives the zero value of presence-less scalar kinds.
+func zeroVal(k string) (val, bool) {
+	switch k {
+	case "int32":
+		return val{zero: true, text: "0", pv: protoreflect.ValueOfInt32(0)}, true
+	case "int64":
+		return val{zero: true, text: "0", pv: protoreflect.ValueOfInt64(0)}, true
+	case "uint32":
+		return val{zero: true, text: "0", pv: protoreflect.ValueOfUint32(0)}, true
+	case "uint64":
+		return val{zero: true, text: "0", pv: protoreflect.ValueOfUint64(0)}, true
+	case "bool":
+		return val{zero: true, text: "false", pv: protoreflect.ValueOfBool(false)}, true
+	case "enum":
+		return val{zero: true, text: "COLOR_UNSPECIFIED", pv: protoreflect.ValueOfEnum(0)}, true
+	case "float":
+		return val{zero: true, text: "0", pv: protoreflect.ValueOfFloat32(0)}, true
+	case "double":
+		return val{zero: true, text: "0", pv: protoreflect.ValueOfFloat64(0)}, true
+	}
+	return val{}, false
+}
+
 func abs32(x int32) int32 {
 	if x < 0 {
 		return -x
@@ -296,8 +321,10 @@ func invalidText(k string, r *rng) string {
 		return []string{"18446744073709551616", "-1", "12x", "abc"}[r.pick(4)]
 	case "bool", "wbool":
 		return []string{"yes", "2", "tru", "t"}[r.pick(4)]
-	case "float", "wfloat", "double", "wdouble":
-		return []string{"abc", "1.2.3", "1e", "--1", "1,5"}[r.pick(5)]
+	case "float", "wfloat":
+		return []string{"abc", "1.2.3", "1e", "--1", "1,5", "3.5e38", "-3.5e38", "1e39", "1e400"}[r.pick(9)]
+	case "double", "wdouble":
+		return []string{"abc", "1.2.3", "1e", "--1", "1,5", "1e400", "-1e999"}[r.pick(7)]
 	case "bytes", "wbytes":
 		return []string{"!!!!", "a", "ab!d", "****"}[r.pick(4)]
 	case "enum":
@@ -445,6 +472,11 @@ func runTcCase(c TcAbs, seed int64) TcEv {
 	vals := map[string]val{}
 	for k, l := range role {
 		vals[k] = genVal(l.kind, r, c.Table, k == "p1" || k == "p2")
+	}
+	if c.ZeroPath { // the path carries the zero value of a presence-less kind; the competitors are non-zero
+		if z, ok := zeroVal(role["p1"].kind); ok {
+			vals["p1"] = z
+		}
 	}
 	var rvals []val
 	for i := 0; i < 1+r.Intn(3); i++ {
@@ -661,6 +693,8 @@ func runTcCase(c TcAbs, seed int64) TcEv {
 	for _, k := range []string{"p1", "p2", "q1", "q2", "n", "b1", "b2"} {
 		_, has := getLeaf(got.ProtoReflect(), role[k].path)
 		switch {
+		case vals[k].zero && !has:
+			ev.Tags[k] = "true" // the zero value is the absence of the field
 		case leafEquals(got, role[k].path, vals[k]):
 			ev.Tags[k] = "true"
 		case k == "p1" && leafEquals(got, role[k].path, comp):
@@ -789,7 +823,7 @@ func runRespCase(c RespCase, seed int64) RespEv {
 	switch c.Kind {
 	case "httpbody":
 		rawData = []byte("raw \x00\xff bytes " + strings.Repeat("z", r.Intn(300)))
-		ev.WantCT = []string{"image/png", "text/plain; charset=utf-8", "application/x-thing", "application/json"}[r.pick(4)]
+		ev.WantCT = []string{"image/png", "text/plain; charset=utf-8", "application/x-thing", "application/json", ""}[r.pick(5)]
 		reply = &httpbody.HttpBody{ContentType: ev.WantCT, Data: rawData}
 	default:
 		rp := repMsg(c.ID, 1, 0)
